@@ -356,24 +356,6 @@ def _covered(ctx, p, fn, block, e1, e2, steers):
                             if ast == other_state or covers(ast, other_state):
                                 how = 'neighbour list within %s' % R
             if how is None:
-                if os.environ.get('OXA_DEBUG_C05'):
-                    for (raw, other_state) in ((raw2, s1), (raw1, s2)):
-                        for (_db, idx) in raw:
-                            src = P.iter_source(idx)
-                            print('DBG idx', fmt_terms(idx)[:150], 'src', None if src is None else fmt_terms(src)[:100])
-                            if src is None:
-                                continue
-                            for n in src:
-                                if n[0] == 'call' and ctx.core.body(n[1]) is not None:
-                                    summ = neighbour_summary(ctx, p, ctx.fn(ctx.core.body(n[1])))
-                                    print('DBG summ', summ if summ is None else (summ[0], summ[1]))
-                                    if summ:
-                                        sf = list(p['containers'].values())[0]['state_field']
-                                        ast = P.norm_state(ctx, p, fn, fn._field(n[2][summ[0] - 1], sf))
-                                        import pickle
-                                        pickle.dump((ast, other_state), open('/tmp/dbg/c05sets.pkl', 'wb'))
-                                        for x in sorted(map(str, ast - other_state)): print('DBG only ast  :', x)
-                                        for x in sorted(map(str, other_state - ast)): print('DBG only other:', x)
                 return False, 'the link between %s and %s is neither the steered extension nor guarded by a radius comparison' % (
                     fmt_terms(s1)[:70], fmt_terms(s2)[:70])
             hows.add(how)
